@@ -96,9 +96,11 @@ def ret_code(it):
     return None
 
 
-def judge_decider(I, its, cls, eb, kind, m):
+def judge_decider(I, its, cls, eb, kind, m, undecided=None):
     """kind: 'validator' | 'repairer' | 'probe-check' | 'probe-subst'.  Returns list of mismatch strings."""
     bad = []
+    if undecided is None:
+        undecided = []
     need = cls['need']
     for it in its:
         if it.kind == 'unreachable':
@@ -123,8 +125,17 @@ def judge_decider(I, its, cls, eb, kind, m):
             if acc:
                 ok = st.is_eq0(it.din - need) is True and it.dout is not None and st.is_eq0(it.dout - need) is True
                 if ok and need > 1:
-                    ok = len(copies) == 1 and isinstance(copies[0][3], PtrV) and copies[0][3].obj == 'IN' and \
+                    bulk = len(copies) == 1 and isinstance(copies[0][3], PtrV) and copies[0][3].obj == 'IN' and \
                         st.is_eq0(copies[0][3].off - Lin.atom('cur')) is True and st.is_eq0(copies[0][4] - need) is True
+                    # ... or unit by unit: store k is the unit read at cursor + k
+                    single = not copies and len(it.stores) == need and all(
+                        isinstance(e[4], IntV) and e[4].lin.single_atom() is not None and e[4].lin.single_atom()[0] == conv.unit_atom(1, k)
+                        for k, e in enumerate(it.stores))
+                    if not (bulk or single):
+                        if copies or it.stores:
+                            undecided.append('the %d unit(s) of an accepted sequence reach the output by other means than one copy or %d stores: not compared' % (need, need))
+                            continue
+                        ok = False
                 if not ok:
                     bad.append('expected the %d unit(s) copied verbatim, got %s' % (need, describe(it, eb)))
             else:
@@ -203,7 +214,11 @@ def deciders(run, m, F, E):
                 run.ob('R02.1', label, None, 'the loop does not move a recognised cursor over the input: class not judged' if its else 'no path explored',
                        disc=cls['name'], loc=fn_loc(fn))
                 continue
-            bad = judge_decider(I, its, cls, 1, kind, m)
+            und_ = []
+            bad = judge_decider(I, its, cls, 1, kind, m, und_)
+            if not bad and und_:
+                run.ob('R02.1', label, None, und_[0], disc=cls['name'], loc=fn_loc(fn))
+                continue
             run.ob('R02.1', label, not bad, bad[0] if bad else '%s as the table says (%d path(s))' % (cls['expect'], len(its)),
                    disc=cls['name'], loc=fn_loc(fn))
     return n
